@@ -138,10 +138,19 @@ def expected_identity(spec):
     return None
 
 
-def oracle(ctx, label, spec, obs):
-    want = expected_identity(spec)
-    statuses = sorted({x[1] for b in spec['plugins'] for x in (b['user'], b['groups']) if x[0] == 'status'})
+def spec_at(spec, i):
+    """The script as it stands while frame i is handled (plugins with 'phases' change their answers per frame)."""
+    out = dict(spec)
+    out['plugins'] = [dict(b, user=b['phases'][min(i, len(b['phases']) - 1)][0], groups=b['phases'][min(i, len(b['phases']) - 1)][1])
+                      if b.get('phases') else b for b in spec['plugins']]
+    return out
+
+
+def oracle(ctx, label, spec0, obs):
     for i, f in enumerate(obs['frames']):
+        spec = spec_at(spec0, i)
+        want = expected_identity(spec)
+        statuses = sorted({x[1] for b in spec['plugins'] for x in (b['user'], b['groups']) if x[0] == 'status'})
         w = {'config': label, 'cert': spec['cert'], 'tls': spec['tls'], 'plugins': spec['plugins'], 'frame_index': i,
              'frame_hex': f['frame'].hex()[:600], 'expected_identity': want,
              'engine_credential': f['engine']['credential'] if f['engine'] else None}
@@ -226,6 +235,24 @@ def run(ctx):
             if n % 300 == 0:
                 pool.release(px)
                 px = pool.fresh()
+        # the service's answers change while the connection is open: every request is authenticated afresh
+        for names in (['ok', '404-user', 'ok'], ['404-user', 'ok', 'unreachable'], ['ok', 'ok-nogroups', '500-user-only'],
+                      ['unreachable', 'unreachable', 'ok'], ['ok', '404-groups', '404-groups']):
+            for tls in (True, False):
+                blk = block()
+                blk['phases'] = [OUTCOMES[x] for x in names]
+                blk['user'], blk['groups'] = blk['phases'][0]
+                spec = sessdrv.default_spec(create + get + get, cert=(('alice',), 'client'), tls=tls, plugins=[blk])
+                obs, _ = sessdrv.run_spec(px, spec)
+                oracle(ctx, 'changing:' + ','.join(names), spec, obs)
+                entered = [f['engine']['credential'] if f['engine'] else None for f in obs['frames']]
+                want = [expected_identity(spec_at(spec, i)) for i in range(3)]
+                if [None if e is None else (e[0], e[1]) for e in entered] != want:
+                    # entering without a voucher is reported by oracle() above; a vouched request that is refused is not
+                    # forbidden by the property, it only breaks the correspondence with the model (authenticate per request)
+                    ctx.disagreement('establish-changing', {'phases': names, 'tls': tls, 'entered': entered, 'expected': want})
+                ctx.case_seen(('changing', tuple(names), tls), nontrivial=True)
+                ctx.count('plugins.changing')
         pool.release(px)
     finally:
         pool.close()
@@ -255,12 +282,15 @@ def replay(ctx, payload):
         plugins = [dict(p, user=tuple(p['user']), groups=tuple(p['groups'])) for p in w.get('plugins', [])]
         frame = bytes.fromhex(w['frame_hex']) if len(w.get('frame_hex', '')) < 600 else \
             sessdrv.encode_request(kdrv.Engine.build(None, [kdrv.create()], version=(1, 4)), (1, 4))
+        if any(p.get('phases') for p in plugins):          # answers change per frame: replay the whole three-frame connection
+            mk = lambda items, v: sessdrv.encode_request(kdrv.Engine.build(None, items, version=v), v)
+            frame = mk([kdrv.create()], (1, 4)) + mk([kdrv.get('1')], (2, 0)) * 2
         spec = sessdrv.default_spec(frame, cert=cert, tls=w.get('tls', True), plugins=plugins)
         obs, _ = sessdrv.run_spec(px, spec)
         oracle(ctx, w.get('config', 'replay'), spec, obs)
-        for f in obs['frames']:
-            print('engine entered:', bool(f['engine']), 'credential:', f['engine']['credential'] if f['engine'] else None,
-                  'expected identity:', expected_identity(spec))
+        for i, f in enumerate(obs['frames']):
+            print('frame', i, 'engine entered:', bool(f['engine']), 'credential:', f['engine']['credential'] if f['engine'] else None,
+                  'identity the property allows:', expected_identity(spec_at(spec, i)))
     finally:
         pool.close()
     print('replay: %d oracle hit(s)' % (len(ctx.violations) + len(ctx.known_hits)))
